@@ -294,6 +294,8 @@ class Sequence(AbstractSequence):
         """
         if self.is_empty:
             raise EmptySequenceFastaError("Cannot write FASTA for empty Sequence")
+        if num_chars < 1:
+            raise ValueError(f"Number of characters per line must be positive: {num_chars}")
 
         r = [f">{self.id}"]
         for i in range(0, self._len, num_chars):
